@@ -48,7 +48,7 @@ E2 (complete enumeration)
     are arbitrary and whose rest is drained generator after generator or round-robin is executed (generators created
     up front or lazily at their first call); each generator must yield exactly what the same call yields alone on a
     fresh object (which the plain grid cases judge).  Thorough: n 0..12 x ncols 1..6 with 6 free calls, 3 generators
-    n 0..8 x ncols 1..4 with 5.
+    n 0..8 x ncols 1..4 with 4.
   * DataCombination: every list of item lists within the bound, three value variants (unique labels, the same
     numbers in every list, tuples as item lists) plus (round 2) EVERY equality pattern inside the item lists
     (restricted growth strings: [0,1,0] = first and third value equal) rendered three ways: repeated labels,
@@ -126,7 +126,7 @@ LIN = dict(
 # overlapping iterations of one DataPlotGrid (round 4): (k generators, n range, ncols range, kinds, prefix length)
 MIX = dict(
     quick=[(2, (0, 8), (1, 4), ("list", "dict"), 4), (3, (2, 6), (2, 3), ("list",), 4)],
-    thorough=[(2, (0, 12), (1, 6), ("list", "dict"), 6), (3, (0, 8), (1, 4), ("list", "dict"), 5)],
+    thorough=[(2, (0, 12), (1, 6), ("list", "dict"), 6), (3, (0, 8), (1, 4), ("list", "dict"), 4)],
 )
 
 
